@@ -882,17 +882,20 @@ def loop_to_extend_map(tree: ast.Module) -> int:
 def drop_casts(tree: ast.Module) -> int:
     """`typing.cast(T, e)` is `e` at run time (the type argument - usually a name or a string - is not evaluated for effect)."""
     names: Set[str] = set()       # local names of typing.cast
+    nt_names: Set[str] = set()    # local names of typing.NewType
     mods: Set[str] = set()        # local names of the typing module
     for st in ast.walk(tree):
         if isinstance(st, ast.ImportFrom) and st.module in ('typing', 'typing_extensions') and not st.level:
             for al in st.names:
                 if al.name == 'cast':
                     names.add(al.asname or al.name)
+                elif al.name == 'NewType':
+                    nt_names.add(al.asname or al.name)
         elif isinstance(st, ast.Import):
             for al in st.names:
                 if al.name in ('typing', 'typing_extensions'):
                     mods.add(al.asname or al.name)
-    if not names and not mods:
+    if not names and not mods and not nt_names:
         return 0
     # a local re-binding of the name would make it something else
     for n in ast.walk(tree):
@@ -902,6 +905,30 @@ def drop_casts(tree: ast.Module) -> int:
         elif isinstance(n, ast.arg) and n.arg in names | mods:
             names.discard(n.arg)
             mods.discard(n.arg)
+    # `Key = NewType('Key', T)` at module level: `Key(e)` is `e` at run time (the callable NewType returns is the identity)
+    newtypes: Set[str] = set()
+    for st in tree.body:
+        tgt = None
+        if isinstance(st, ast.Assign) and len(st.targets) == 1 and isinstance(st.targets[0], ast.Name):
+            tgt, val = st.targets[0].id, st.value
+        elif isinstance(st, ast.AnnAssign) and isinstance(st.target, ast.Name) and st.value is not None:
+            tgt, val = st.target.id, st.value
+        if tgt is None or not isinstance(val, ast.Call) or len(val.args) != 2 or val.keywords:
+            continue
+        f = val.func
+        if (isinstance(f, ast.Name) and f.id in nt_names) or (
+                isinstance(f, ast.Attribute) and f.attr == 'NewType' and isinstance(f.value, ast.Name) and f.value.id in mods):
+            newtypes.add(tgt)
+    if newtypes:
+        stores: Dict[str, int] = {}
+        for n in ast.walk(tree):
+            if isinstance(n, ast.Name) and isinstance(n.ctx, (ast.Store, ast.Del)) and n.id in newtypes:
+                stores[n.id] = stores.get(n.id, 0) + 1
+            elif isinstance(n, ast.arg) and n.arg in newtypes:
+                stores[n.arg] = 2
+            elif isinstance(n, (ast.FunctionDef, ast.AsyncFunctionDef, ast.ClassDef)) and n.name in newtypes:
+                stores[n.name] = 2
+        newtypes = {k for k in newtypes if stores.get(k) == 1}
     count = [0]
 
     class R(ast.NodeTransformer):
@@ -913,6 +940,10 @@ def drop_casts(tree: ast.Module) -> int:
             if is_cast and len(node.args) == 2 and not node.keywords and not any(isinstance(a, ast.Starred) for a in node.args):
                 count[0] += 1
                 return node.args[1]
+            if isinstance(f, ast.Name) and f.id in newtypes and len(node.args) == 1 and not node.keywords \
+                    and not isinstance(node.args[0], ast.Starred):
+                count[0] += 1
+                return node.args[0]
             return node
     R().visit(tree)
     return count[0]
@@ -2961,6 +2992,48 @@ def two_valued_properties_to_bools(tree: ast.Module) -> int:
         set_alias_parents(tree)
     return count
 
+
+
+def fold_negations(tree: ast.Module) -> int:
+    """`not (a is not b)` -> `a is b`, `not (a is b)` -> `a is not b`, likewise `in` / `not in` (these pairs are exact
+    negations of each other for every operand; `==` / `!=` are not and stay); `not not e` -> `e` where only the truth of the
+    expression is used (the test of an if / while / conditional expression / assert, an operand of `not`)."""
+    count = [0]
+    flip = {ast.Is: ast.IsNot, ast.IsNot: ast.Is, ast.In: ast.NotIn, ast.NotIn: ast.In}
+
+    def neg(e: ast.expr) -> Optional[ast.expr]:
+        if isinstance(e, ast.Compare) and len(e.ops) == 1 and type(e.ops[0]) in flip:
+            c = ast.Compare(left=e.left, ops=[flip[type(e.ops[0])]()], comparators=e.comparators)
+            return ast.copy_location(c, e)
+        return None
+
+    class R(ast.NodeTransformer):
+        def visit_UnaryOp(self, node: ast.UnaryOp):
+            self.generic_visit(node)
+            if isinstance(node.op, ast.Not):
+                r = neg(node.operand)
+                if r is not None:
+                    count[0] += 1
+                    return r
+                inner = node.operand
+                if isinstance(inner, ast.UnaryOp) and isinstance(inner.op, ast.Not):
+                    r2 = neg(inner.operand)
+                    if r2 is not None:       # not not (a is b): still a bool
+                        count[0] += 1
+                        return inner.operand
+            return node
+
+    R().visit(tree)
+    # truth-only positions
+    for n in ast.walk(tree):
+        if isinstance(n, (ast.If, ast.While, ast.IfExp, ast.Assert)):
+            t = n.test
+            while (isinstance(t, ast.UnaryOp) and isinstance(t.op, ast.Not)
+                   and isinstance(t.operand, ast.UnaryOp) and isinstance(t.operand.op, ast.Not)):
+                t = t.operand.operand
+                count[0] += 1
+            n.test = t
+    return count[0]
 
 
 def fold_constant_choices(tree: ast.Module) -> int:
